@@ -132,6 +132,7 @@ type Enc struct {
 	outTag       []int
 	usedMarks    map[string]int
 	assumedPre   map[string]string
+	alias        map[string]string
 	curTag       int
 	ntag         int
 	curAllowed   map[int]bool
@@ -140,7 +141,7 @@ type Enc struct {
 func newEnc(p *Prog, fn *ssa.Function, spec *FuncSpec) *Enc {
 	e := &Enc{p: p, st: newSortTable(), regionSort: map[string]string{}, regionConst: map[string]string{}, root: fn, rootSpec: spec,
 		abstractions: map[string]bool{}, strLits: map[string]string{}, oblNames: map[string]int{},
-		usedTrusted: map[string]string{}, usedHavoc: map[string]bool{}, usedInline: map[string]bool{}, usedEffFree: map[string]bool{}, tupleVals: map[tupleKey]string{}, ghostUsed: map[string]bool{}, regionElem: map[string][2]string{}, usedMarks: map[string]int{}, assumedPre: map[string]string{}}
+		usedTrusted: map[string]string{}, usedHavoc: map[string]bool{}, usedInline: map[string]bool{}, usedEffFree: map[string]bool{}, tupleVals: map[tupleKey]string{}, ghostUsed: map[string]bool{}, regionElem: map[string][2]string{}, usedMarks: map[string]int{}, assumedPre: map[string]string{}, alias: map[string]string{}}
 	e.regionSort["heapTop"] = "Int"
 	return e
 }
@@ -193,7 +194,22 @@ func (e *Enc) assume(t string) {
 func (e *Enc) define(prefix, sortName, term string) string {
 	n := e.fresh(prefix, sortName)
 	e.assume(eq(n, term))
+	if !strings.ContainsAny(term, " ()") {
+		e.alias[n] = term
+	}
 	return n
+}
+
+// canon resolves a constant through definitional aliases (c := d) to its root term.
+func (e *Enc) canon(t string) string {
+	for i := 0; i < 20; i++ {
+		r, ok := e.alias[t]
+		if !ok {
+			return t
+		}
+		t = r
+	}
+	return t
 }
 
 // ---------------------------------------------------------------------------
@@ -327,7 +343,8 @@ func (e *Enc) havocEffects(s *state, eff *effSet, escLocals map[string]bool) {
 			e.havocRegion(s, r)
 		}
 	}
-	if len(eff.regs) > 0 {
+	{
+		// the callee may have allocated
 		top := e.get(s, "heapTop")
 		nt := e.fresh("heapTop", "Int")
 		e.assume(app("<=", top, nt))
@@ -440,23 +457,25 @@ func storeRegion(addr ssa.Value) string {
 		return storeRegion(a.X)
 	case *ssa.IndexAddr:
 		if _, ok := a.X.Type().Underlying().(*types.Slice); ok {
+			if _, fresh := a.X.(*ssa.MakeSlice); fresh {
+				return "" // element of a slice made by this very function
+			}
 			return "mem:" + typeKey(a.X.Type().Underlying().(*types.Slice).Elem())
 		}
 		// pointer to array
-		switch a.X.(type) {
+		switch x := a.X.(type) {
 		case *ssa.FieldAddr, *ssa.IndexAddr:
 			return storeRegion(a.X)
+		case *ssa.Alloc:
+			_ = x
+			return "" // freshly allocated in this function: not visible in the caller's pre-state
 		}
 		arr := a.X.Type().Underlying().(*types.Pointer).Elem().Underlying().(*types.Array)
 		return "mem:" + typeKey(arr.Elem())
 	case *ssa.Global:
 		return "g:" + a.String()
 	case *ssa.Alloc:
-		if !a.Heap {
-			if _, isArr := a.Type().Underlying().(*types.Pointer).Elem().Underlying().(*types.Array); !isArr {
-				return ""
-			}
-		}
+		return "" // a store into memory allocated by this very function is invisible to the caller's pre-state
 	}
 	pt, ok := addr.Type().Underlying().(*types.Pointer)
 	if !ok {
